@@ -54,6 +54,13 @@ def doRfc (bs : Bytes) : String :=
     | none => "st=badresp"
     | some r => (if Rfc.supported bs m then "st=ok " else "st=unsup ") ++ r.dump
 
+/-- `ares_dns_name_write(buf, NULL, FALSE, name)`: the labels `ares_split_dns_name` finds, on the wire -/
+def doSplit (name : Bytes) : String :=
+  if name.toList.contains 0 then "bad-op" else
+  match splitDnsName false name.toList with
+  | .error e => "st=" ++ e.cls
+  | .ok labels => "st=ok w=" ++ hex (labels.flatMap (fun l => (l.length % 256).toUInt8 :: l) ++ [0])
+
 def step (s : Unit) (toks : List String) : Unit × String :=
   match toks with
   | ["parse", flags, h] =>
@@ -61,6 +68,7 @@ def step (s : Unit) (toks : List String) : Unit × String :=
     | some f => (s, doParse f (unhex h))
     | none => (s, "bad-op")
   | ["rfc", h] => (s, doRfc (unhex h))
+  | ["split", h] => (s, doSplit (unhex h))
   | ["xname", h, off] =>
     match off.toNat? with
     | some o => (s, doXname (unhex h) o)
